@@ -204,3 +204,42 @@ contract(TG + ".new", serves=["C13", "C12"], spec_module="spec.textgrids",
                   ("independent", "result is not self and forall(range(len(self.tierNames)), lambda i: "
                                   "result.tiers[i] is not self.tiers[i])")])
 
+
+# ---- C10 / C12: mergeTiers.  union() is not replaced by a spec (it has none): its body runs with the R-INV rule, so
+# what is known of a merged tier is its class invariant, its name and its span - enough for "one tier per class, named
+# after the first selected tier of the class, other tiers kept in order, spans agree"; the labelled-time content of
+# the merged tiers is decided by c10_setops / c12_textgrid_model.
+from contracts.c_tiers import distinct_interval_tier, strict_point_tier
+
+
+def tg_of(S, kinds):
+    pairs, env = [], {}
+    lo, hi = S.real("self.min"), S.real("self.max")
+    for i, kd in enumerate(kinds):
+        mk = distinct_interval_tier if kd == "I" else strict_point_tier
+        t = mk(S, "self.t%d" % i)
+        pairs.append((S.attr(t, "name"), t))
+        env["t%d" % i] = t
+        S.assume("t.minTimestamp == lo and t.maxTimestamp == hi", {"t": t, "lo": lo, "hi": hi})
+    for i in range(len(kinds)):
+        for j in range(i + 1, len(kinds)):
+            S.assume("t%d.name != t%d.name" % (i, j), env)
+    S.assume("0 <= lo and lo <= hi", {"lo": lo, "hi": hi})
+    return S.obj(TG, _tierDict=S.odict(pairs), minTimestamp=lo, maxTimestamp=hi)
+
+
+def merge_inputs(S, cfg):
+    tg = tg_of(S, cfg["kinds"])
+    names = [S.str("self.t%d.name" % i) for i in range(len(cfg["kinds"]))]
+    sel = None if cfg["selection"] == "all" else S.pylist(list(reversed(names)) if cfg["selection"] == "reversed" else names[:2])
+    return dict(self=tg, tierNames=sel, preserveOtherTiers=True)
+
+
+contract(TG + ".mergeTiers", serves=["C10", "C12", "C13"], spec_module="spec.textgrids",
+         configs={"kinds": ["II", "PP", "IP", "IIP"], "selection": ["all", "reversed", "first-two"]},
+         skip_config=lambda c: c["selection"] == "first-two" and len(c["kinds"]) < 3,
+         inputs=merge_inputs,
+         frame=["self"],
+         ensures=[("names", "result.tierNames == merged_names(self, tierNames, preserveOtherTiers)"),
+                  ("well-formed", "forall(range(len(result.tierNames)), lambda i: well_formed(result.tiers[i]))"),
+                  ("span", "result.minTimestamp == self.minTimestamp and result.maxTimestamp == self.maxTimestamp")])
